@@ -267,4 +267,16 @@ def where_ (ws : List Word) : Option Nat := firstLine ws
 /-- the local `where_str()` helper: `""` if `words is None` else `words[0].where_str()` -/
 def where_opt : Option (List Word) → Option Nat | some ws => firstLine ws | Option.none => Option.none
 
+/-! ### third batch: parent chains, printer decisions -/
+
+/-- `sep.join(l)` for a list of strings -/
+def join (sep : Str) (l : List Str) : Str := joinWith sep l
+/-- `s * n` (a non-positive `n` gives `""`) -/
+def repeat_ (s : Str) (n : Int) : Str := (List.replicate n.toNat s).flatten
+/-- an attribute value (`None` | `Auto` | str | bool | int | a converter object): `value is None` -/
+def attrIsNone : AttrVal → Bool | .none => true | _ => false
+/-- truth value of an attribute value (`Auto` and converter objects are true) -/
+def attrTruthy : AttrVal → Bool
+  | .none => false | .auto => true | .str s => !s.isEmpty | .bool b => b | .int i => i != 0 | .conv _ => true
+
 end Phil.Py
